@@ -3,8 +3,9 @@ C11 on the execution TREE — "Stop and cancel end the whole execution tree; lat
 Theorems over Mistral.Tree (model of workflow_handler.stop_workflow and its recursion, Workflow.stop /
 _succeed / _fail / _cancel_workflow, _send_result_to_parent_workflow, the dispatcher, run_task, the child-result
 hand-off to plain and with-items parent tasks), for ALL definitions, trees and event histories.
-Histories: every event list without the resume command and the scheduled update job of a with-items child
-(`AllPlain`; pause commands, stops, all deliveries are included — see Lemmas `Plain`).
+Histories: EVERY event list (stops, pause and resume commands with their propagation, all deliveries); the
+resume part needs repo patch 20 (without it a nested resume restarts a finished execution:
+corpus/C11/tree_nested_resume_restart.json).
 The model is tied to the real engine by the `tree` stream (harness/tree_stream.py): rows and pending
 deliveries equal after EVERY event.
 
@@ -68,17 +69,18 @@ example : ((step chain3 (run chain3 chain3Up) (.stop 1 .ERROR "m")).execs.map fu
 
 /-! ### "results of actions that were still running or about to start do not change its state or output" -/
 
-/-- A finished execution never changes state, output, state_info (the message it was stopped with),
-    accepted flag or the number of result messages registered for its parent, whatever is delivered or
-    requested afterwards (late action results, start-task messages, child results, completion checks,
-    further stop commands of any kind), anywhere in the tree, in EVERY state and for every continuation. -/
-theorem finished_is_inert (c : Cfg) (w : World) (evs2 : List Event) (hp2 : AllPlain evs2) (i : Nat) (e : Exec)
+/-- A finished execution never changes state, output, state_info (the message it was stopped with) or the
+    number of result messages registered for its parent, whatever is delivered or requested afterwards (late
+    action results, start-task messages, child results, completion checks, further stop / pause / resume
+    commands and everything they propagate), anywhere in the tree, in EVERY state and for every continuation.
+    (The `accepted` flag of a failed / cancelled child is reset when its task runs again: `_reset_actions`.) -/
+theorem finished_is_inert (c : Cfg) (w : World) (evs2 : List Event) (i : Nat) (e : Exec)
     (he : w.execs[i]? = some e) (hc : isCompleted e.state = true) :
     ∃ e', (evs2.foldl (step c) w).execs[i]? = some e' ∧ e'.state = e.state ∧ e'.out = e.out ∧
-      e'.info = e.info ∧ e'.accepted = e.accepted ∧ e'.sent = e.sent := by
-  obtain ⟨e', he', hf⟩ := (good_run c w evs2 hp2).execs i e he
-  obtain ⟨a1, a2, a3, a4, a5⟩ := hf.2.2.2.2 hc
-  exact ⟨e', he', a1, a2, a3, a5, a4⟩
+      e'.info = e.info ∧ e'.sent = e.sent := by
+  obtain ⟨e', he', hf⟩ := (good_run c w evs2).execs i e he
+  obtain ⟨a1, a2, a3, a4⟩ := hf.2.2.2.2 hc
+  exact ⟨e', he', a1, a2, a3, a4⟩
 
 /-- the former witness of `message_kept_full_fails`: the second stop(SUCCESS) is ignored -/
 def restop : List Event :=
@@ -91,11 +93,11 @@ example : (((run chain2 restop).execs[1]?).map fun e => (e.state, e.info, e.sent
 
 /-- In a finished execution no task row is ever created again: every task row of execution i that exists
     after any continuation existed before it (same owner, same name).  Holds in every state of the model. -/
-theorem no_new_task_in_finished (c : Cfg) (w : World) (evs2 : List Event) (hp2 : AllPlain evs2) (i : Nat) (e : Exec)
+theorem no_new_task_in_finished (c : Cfg) (w : World) (evs2 : List Event) (i : Nat) (e : Exec)
     (he : w.execs[i]? = some e) (hc : isCompleted e.state = true) (t : Nat) (tk' : Task)
     (ht : (evs2.foldl (step c) w).tasks[t]? = some tk') (hwf : tk'.wf = i) :
     ∃ tk, w.tasks[t]? = some tk ∧ tk.wf = i ∧ tk.name = tk'.name := by
-  have hg := good_run c w evs2 hp2
+  have hg := good_run c w evs2
   cases hw : w.tasks[t]? with
   | none =>
     have := hg.fresh t tk' ht hw e (by rw [hwf]; exact he)
@@ -123,12 +125,12 @@ theorem cancel_subtree (c : Cfg) (w : World) (a : Nat) (msg : String) (x : Nat) 
 
 /-- after the cancel transaction everything at or below the cancelled execution is finished (in a
     reachable state: the links are well formed) -/
-theorem cancel_finishes_subtree (c : Cfg) (evs : List Event) (hp : AllPlain evs) (a : Nat) (msg : String)
+theorem cancel_finishes_subtree (c : Cfg) (evs : List Event) (a : Nat) (msg : String)
     (ha : a < (run c evs).execs.length) :
     BelowDone (step c (run c evs) (.stop a .CANCELLED msg)) a := by
   intro f x e1 he1 hb
-  have hwf := (allJ_reachable c evs hp).2
-  have hg := good_step c (run c evs) (.stop a .CANCELLED msg) rfl
+  have hwf := (allJ_reachable c evs).2
+  have hg := good_step c (run c evs) (.stop a .CANCELLED msg)
   have hlen : (step c (run c evs) (.stop a .CANCELLED msg)).execs.length = (run c evs).execs.length := by
     simp [step, ha, cancelTx]
   have hx : x < (run c evs).execs.length := by rw [← hlen]; exact lt_of_get he1
@@ -192,7 +194,7 @@ example : ((run chain3 (chain3Up ++ [.stop 0 .CANCELLED "m", .deliver (.postSend
 /-- After the cancel of `a`, under EVERY continuation: every execution at or below `a` is finished, no
     execution is ever created below `a`, and every task row that belongs to an execution at or below `a`
     existed when `a` was cancelled.  (Reachable states; `f` = any recursion depth.) -/
-theorem no_new_task_below_cancelled (c : Cfg) (evs evs2 : List Event) (hp : AllPlain evs) (hp2 : AllPlain evs2)
+theorem no_new_task_below_cancelled (c : Cfg) (evs evs2 : List Event)
     (a : Nat) (msg : String)
     (ha : a < (run c evs).execs.length) (f t : Nat) (tk' : Task)
     (ht : (evs2.foldl (step c) (step c (run c evs) (.stop a .CANCELLED msg))).tasks[t]? = some tk')
@@ -203,54 +205,55 @@ theorem no_new_task_below_cancelled (c : Cfg) (evs evs2 : List Event) (hp : AllP
   have htasks : (step c (run c evs) (.stop a .CANCELLED msg)).tasks = (run c evs).tasks := by
     simp [step, ha, cancelTx]
   have hwf1 : WF (step c (run c evs) (.stop a .CANCELLED msg)) :=
-    ((good_step c (run c evs) _ rfl).inv (allJ_reachable c evs hp)).2
-  have hd := cancel_finishes_subtree c evs hp a msg ha
-  have hg := good_run c (step c (run c evs) (.stop a .CANCELLED msg)) evs2 hp2
+    ((good_step c (run c evs) _).inv (allJ_reachable c evs)).2
+  have hd := cancel_finishes_subtree c evs a msg ha
+  have hg := good_run c (step c (run c evs) (.stop a .CANCELLED msg)) evs2
   have hold := below_is_old hg hwf1 a hd (by rw [hlen]; exact ha) f tk'.wf hb
   refine ⟨by rw [← hlen]; exact hold, ?_⟩
   have he1 : (step c (run c evs) (.stop a .CANCELLED msg)).execs[tk'.wf]? = some _ := List.getElem?_eq_getElem hold
   have hc := hd f tk'.wf _ he1 (below_old hg hwf1 a f tk'.wf hold hb)
-  obtain ⟨tk, h1, h2, _⟩ := no_new_task_in_finished c _ evs2 hp2 tk'.wf _ he1 hc t tk' ht rfl
+  obtain ⟨tk, h1, h2, _⟩ := no_new_task_in_finished c _ evs2 tk'.wf _ he1 hc t tk' ht rfl
   exact ⟨tk, by rw [← htasks]; exact h1, h2⟩
 
 /-- no execution is ever created below a cancelled one -/
-theorem no_new_execution_below_cancelled (c : Cfg) (evs evs2 : List Event) (hp : AllPlain evs)
-    (hp2 : AllPlain evs2) (a : Nat) (msg : String)
+theorem no_new_execution_below_cancelled (c : Cfg) (evs evs2 : List Event)
+    (a : Nat) (msg : String)
     (ha : a < (run c evs).execs.length) (f x : Nat)
     (hb : below (evs2.foldl (step c) (step c (run c evs) (.stop a .CANCELLED msg))) a f x = true) :
     x < (run c evs).execs.length := by
   have hlen : (step c (run c evs) (.stop a .CANCELLED msg)).execs.length = (run c evs).execs.length := by
     simp [step, ha, cancelTx]
   have hwf1 : WF (step c (run c evs) (.stop a .CANCELLED msg)) :=
-    ((good_step c (run c evs) _ rfl).inv (allJ_reachable c evs hp)).2
-  have := below_is_old (good_run c _ evs2 hp2) hwf1 a (cancel_finishes_subtree c evs hp a msg ha)
+    ((good_step c (run c evs) _).inv (allJ_reachable c evs)).2
+  have := below_is_old (good_run c _ evs2) hwf1 a (cancel_finishes_subtree c evs a msg ha)
     (by rw [hlen]; exact ha) f x hb
   rw [← hlen]; exact this
 
 /-- the former witness of `no_new_task_below_cancelled_full_fails`: the IDLE sub-workflow task whose
-    start_task arrives after the cancel does not start a child any more; it is completed with ERROR -/
+    start_task arrives after the cancel does not start a child any more; it is cancelled with its workflow
+    (repo patch 19) -/
 def lateStart : List Event :=
   [.startRoot 0, .deliver (.postStartTask 0 true), .stop 0 .CANCELLED "m", .deliver (.rpcStartTask 0 true)]
 
 example : ((run chain2 lateStart).execs.map (·.state), (run chain2 lateStart).tasks.map fun t => (t.wf, t.state)) =
-    ([.CANCELLED], [(0, .ERROR)]) := by decide
+    ([.CANCELLED], [(0, .CANCELLED)]) := by decide
 
 /-! ### "a cancelled or failed sub-workflow is reported to its parent exactly once" -/
 
 /-- In every reachable state EVERY finished sub-workflow (failed, cancelled or succeeded) has exactly one
     result message registered for its parent, an unfinished one none. -/
-theorem reported_once (c : Cfg) (evs : List Event) (hpl : AllPlain evs) (x : Nat) (e : Exec)
+theorem reported_once (c : Cfg) (evs : List Event) (x : Nat) (e : Exec)
     (he : (run c evs).execs[x]? = some e) (hp : e.parent.isSome = true) :
     (isCompleted e.state = true → e.sent = 1) ∧ (isCompleted e.state = false → e.sent = 0) := by
-  obtain ⟨j1, j2, _⟩ := (allJ_reachable c evs hpl).1 x e he
+  obtain ⟨j1, j2, _⟩ := (allJ_reachable c evs).1 x e he
   exact ⟨fun h => by rw [j2 h, hp]; rfl, j1⟩
 
 example : (((run chain3 (chain3Up ++ [.stop 1 .ERROR "m"])).execs.map (·.sent))) = [0, 1, 0] := by decide
 
 /-- a root execution (no parent task) never registers a result message -/
-theorem root_reports_nothing (c : Cfg) (evs : List Event) (hpl : AllPlain evs) (x : Nat) (e : Exec)
+theorem root_reports_nothing (c : Cfg) (evs : List Event) (x : Nat) (e : Exec)
     (he : (run c evs).execs[x]? = some e) (hp : e.parent = none) : e.sent = 0 := by
-  obtain ⟨j1, j2, _⟩ := (allJ_reachable c evs hpl).1 x e he
+  obtain ⟨j1, j2, _⟩ := (allJ_reachable c evs).1 x e he
   cases hc : isCompleted e.state with
   | false => exact j1 hc
   | true => rw [j2 hc, hp]; rfl
